@@ -114,13 +114,16 @@ CHECKS["C06"] = dict(
            dict(name="queues2", src="harness/queues.cpp", cxxflags=["-DFAMILY=2"]),
            dict(name="queues3", src="harness/queues.cpp", cxxflags=["-DFAMILY=3"]),
            dict(name="queues4", src="harness/queues.cpp", cxxflags=["-DFAMILY=4"], ldflags=BOOST),
+           dict(name="queues5", src="harness/queues.cpp", cxxflags=["-DFAMILY=5"], ldflags=BOOST),
            dict(name="queues1-hb", src="harness/queues.cpp", cxxflags=["-DFAMILY=1"], args=["--hb"]),
            dict(name="queues2-hb", src="harness/queues.cpp", cxxflags=["-DFAMILY=2"], args=["--hb"]),
            dict(name="queues3-hb", src="harness/queues.cpp", cxxflags=["-DFAMILY=3"], args=["--hb"]),
            dict(name="queues4-hb", src="harness/queues.cpp", cxxflags=["-DFAMILY=4"], ldflags=BOOST, args=["--hb"], thorough_only=True)],
     rule=LIN_RULE,
     explanation="MSQueue, MoirQueue, BasketQueue, OptimisticQueue (HP and DHP, item counter / seq_cst variants), RWQueue (scheduler mutex and the shipped spin lock), "
-                "FCQueue (elimination on/off, std::list back end): every explored execution's call/return history (plus a sequential drain) must be linearizable to a FIFO queue",
+                "FCQueue (elimination on/off, std::list back end); unit queues5: the intrusive MSQueue, MoirQueue, BasketQueue, OptimisticQueue (HP/DHP) and intrusive FCQueue over boost::intrusive::list - items "
+                "owned by the harness, every item that went through a queue disposed exactly once by the end, never twice, and no instrumented access to an item after its disposer ran (a dequeued item may still be "
+                "the queue's dummy node until then): every explored execution's call/return history (plus a sequential drain) must be linearizable to a FIFO queue",
     design_ref="DESIGN.md 9/C06, 7.1",
     level_text="Exhaustive within bounds on the real containers under the controlled scheduler; each complete execution is checked by a Wing-Gong linearizability search against a sequential FIFO.",
 )
@@ -139,13 +142,15 @@ CHECKS["C09"] = dict(
     units=[dict(name="stacks1", src="harness/stacks.cpp", cxxflags=["-DFAMILY=1"]),
            dict(name="stacks2", src="harness/stacks.cpp", cxxflags=["-DFAMILY=2"]),
            dict(name="stacks3", src="harness/stacks.cpp", cxxflags=["-DFAMILY=3"], args=["--property", "C09"], ldflags=BOOST),
+           dict(name="stacks4", src="harness/stacks.cpp", cxxflags=["-DFAMILY=4"], ldflags=BOOST),
            dict(name="stacks1-hb", src="harness/stacks.cpp", cxxflags=["-DFAMILY=1"], args=["--hb"]),
            dict(name="stacks2-hb", src="harness/stacks.cpp", cxxflags=["-DFAMILY=2"], args=["--hb"]),
            dict(name="stacks3-hb", src="harness/stacks.cpp", cxxflags=["-DFAMILY=3"], args=["--property", "C09", "--hb"], ldflags=BOOST, thorough_only=True)],
     rule=LIN_RULE,
     aux_names=["quiescent_states", "elimination_collisions", "aux2", "aux3"],
     explanation="TreiberStack (HP in-place and classic scan, DHP; elimination off, and on with collision arrays of 1 and 2 slots, static and dynamic, spin and mutex slot locks, "
-                "2-poll and default elimination waits) and FCStack (elimination on/off); includes the ABA program and 3-thread programs in which a push and a pop meet in the collision array "
+                "2-poll and default elimination waits) and FCStack (elimination on/off); unit stacks4: the intrusive TreiberStack (HP, DHP, elimination) and intrusive FCStack over boost::intrusive::slist with items owned by "
+                "the harness (an item is handed out by pop() once); includes the ABA program and 3-thread programs in which a push and a pop meet in the collision array "
                 "(coverage.aux_counters.elimination_collisions counts executions' eliminated pairs)",
     design_ref="DESIGN.md 9/C09",
     level_text="Exhaustive within bounds on the real stacks; LIFO linearizability of every complete execution.",
@@ -399,7 +404,7 @@ def _seq_units():
     out = []
     spec = [("harness/sets_lists.cpp", "lists", [1, 2, 3, 4, 5, 6, 7], None), ("harness/sets_hash.cpp", "hash", [1, 2, 3, 4, 5], None),
             ("harness/sets_trees.cpp", "trees", [1, 2, 3, 4, 5], None), ("harness/sets_lock.cpp", "lock", [1, 2, 3], None),
-            ("harness/queues.cpp", "queues", [1, 2, 3, 4], BOOST), ("harness/stacks.cpp", "stacks", [1, 2, 3], BOOST)]
+            ("harness/queues.cpp", "queues", [1, 2, 3, 4, 5], BOOST), ("harness/stacks.cpp", "stacks", [1, 2, 3, 4], BOOST)]
     for src, short, fams, ld in spec:
         for f in fams:
             u = dict(name="seq-%s%d" % (short, f), src=src, cxxflags=["-DFAMILY=%d" % f], args=["--property", "C20"])
